@@ -306,8 +306,9 @@ def run_reconnect(idx, rng):
         n = r['new']['index']
         leased = [e for e in world.events if e['kind'] == 'wire' and e.get('conn') == n and e['ep'] == 'c'
                   and e['dir'] == 'recv' and e['f']['type'] == 'LEASE']
-        if leased and desc['lease'][1] >= 2 and desc['lease'][2] >= 5000 and (pr[0] != 'result' or pr[1] is not True):
-            # (a one-request or 0.5 s lease may legitimately have been used up / expired before the probe)
+        if leased and desc['lease'][1] >= 5 and desc['lease'][2] >= 5000 and (pr[0] != 'result' or pr[1] is not True):
+            # (a one- or two-request lease may legitimately have been used up by the requests issued while
+            # reconnecting, a 0.5 s lease may have expired before the probe)
             wit.append({'clause': 'request-under-valid-lease-not-served',
                         'detail': {'connection': n, 'probe': list(pr), 'round': rnd, 'case': desc,
                                    'trace': [x for x in __import__('rv.pair', fromlist=['x']).trace_excerpt(world, 300)
